@@ -15,13 +15,14 @@ p = os.path.join(HERE, 'props', 'unclaimed.json')
 if os.path.exists(p):
     unclaimed = json.load(open(p))
 checks, na = [], []
+claimed = set(json.load(open(os.path.join(HERE, 'props', 'claimed.json'))))
 for pr in props:
     pid = pr['id']
     modfile = os.path.join(HERE, 'props', pid.lower() + '.py')
     mod = None
-    if os.path.exists(modfile):
+    if pid in claimed and os.path.exists(modfile):
         mod = importlib.import_module('props.' + pid.lower())
-    if mod is not None and hasattr(mod, 'MANIFEST'):
+    if pid in claimed and mod is not None and hasattr(mod, 'MANIFEST'):
         m = mod.MANIFEST
         checks.append({
             'property_id': pid,
